@@ -277,6 +277,21 @@ class Fn:
             self.rewrites.append(('R8', f'{n}x {name}(..) statement', 'erased'))
         return self
 
+    def truncate_after_next_stmt(self, anchor, tail, why):
+        """R13 prefix extraction: keep the body through the statement that FOLLOWS `anchor` (whatever its text), drop the rest"""
+        ms = _find_all(anchor, self.body)
+        if len(ms) != 1:
+            raise ExtractError(f"lost anchor in {self.qual}: truncate_after_next_stmt `{anchor[:60]}` matched {len(ms)}x")
+        rest = self.body[ms[0].end():-1]
+        stmts = _split_stmts(rest)
+        if not stmts:
+            raise ExtractError(f"{self.qual}: no statement after `{anchor[:40]}`")
+        keep = ms[0].end() + len(stmts[0])
+        dropped = len(self.body) - keep
+        self.body = self.body[:keep] + '\n' + tail + '\n}'
+        self.rewrites.append(('R13', f'function body truncated after the statement following `{" ".join(anchor.split())}` ({dropped} chars dropped)', why))
+        return self
+
     def truncate_after(self, anchor, tail, why):
         """R13 prefix extraction: keep the body up to and including `anchor`, drop the rest, end with `tail`.
         Only sound for contracts about the state at that point; the dropped suffix is named in the evidence."""
